@@ -73,8 +73,14 @@ def run(ctx):
     R1 = rep.rule('C13.R1', 'every entry pointer cast is a transparent identity, an unsizing, a Box projection, or a downcast dominated by is::<T>()', floor=6)
     R2 = rep.rule('C13.R2', 'byte swap only between equal types: real assert on type ids dominates it; length = size_of_val', floor=2)
     R3 = rep.rule('C13.R3', 'ownership-escaping primitives are a closed table with pairing obligations', floor=2)
+    S1 = rep.rule('C01.R1', 'no stored value is dropped (replaced / removed) while only a shared borrow of the cache is held (shared with C01)', floor=8)
+    S3 = rep.rule('C01.R3', 'destroying map operations need &mut self (shared with C01)', floor=4)
+    from c01 import r1 as no_destroy_under_shared_borrow
     for cfg, F in ctx.cfgs():
         hr = 'hot-reloading' in ctx.cfg_features[cfg]
+        no_destroy_under_shared_borrow(S1, S3, cfg, F)
+        S1.finish_cfg(cfg)
+        S3.finish_cfg(cfg)
         r1(R1, cfg, F)
         R1.finish_cfg(cfg)
         if hr:
